@@ -103,7 +103,8 @@ def run(rep, tier, seed, tr_errors):
     else:
         rep.oblige("translator:tr_formulas", True, "gen/Formulas_gen.v regenerated")
     thm_ok, names, out = lib.check_props_file(rep, PROPS_FILE, expect=["C08_chisqr_term_is_residual_modulus_squared", "C08_chisqr_is_sum_sq_residuals", "C08_exact_fit_zero"])
-    thm_ok2, _, _ = lib.check_props_file(rep, "Props/C08_Mask.v", expect=["C08_masked_values_never_reach_the_views", "C08_masked_values_example"])
+    thm_ok2, _, _ = lib.check_props_file(rep, "Props/C08_Mask.v", expect=["C08_masked_values_never_reach_the_views", "C08_analyses_read_only_the_unmasked_views", "C08_masked_values_example"])
+    rep.oblige("translator:tr_dataaccess", "tr_dataaccess" not in tr_errors, tr_errors.get("tr_dataaccess", "gen/DataAccess_gen.v regenerated (how each analysis function reads its DataSet)")[-400:])
     thm_ok = thm_ok and thm_ok2
     problems = []
     kf = lib.load_known_findings()
